@@ -13,11 +13,14 @@ ASS = "shexer.core.shexing.strategy.abstract_shexing_strategy:AbstractShexingStr
 MC = "shexer.core.shexing.strategy.abstract_shexing_strategy:MergeableConstraints"
 STQ = common.ST
 NSD = Atom("NamespacesDict")      # the prefix table is only passed through in this stage
+SerFactory = schema("SerFactory", ["shexer.io.shex.formater.statement_serializers.st_serializers_factory:StSerializerFactory"],
+                    {"_direct_base": StSer, "_inverse_base": StSer, "_direct_choice": StSer, "_inverse_choice": StSer})
 Strategy = schema("Strategy", ["shexer.core.shexing.strategy.direct_shexing_strategy:DirectShexingStrategy",
                                "shexer.core.shexing.strategy.direct_and_inverse_shexing_strategy:DirectAndInverseShexingStrategy"],
     {"_allow_opt_cardinality": Bool, "_all_compliant_mode": Bool, "_disable_exact_cardinality": Bool, "_disable_comments": Bool,
      "_keep_less_specific": Bool, "_discard_useless_positive_closures": Bool, "_tolerance": Real, "_disable_or_statements": Bool,
-     "_allow_redundant_or": Bool, "_instantiation_property_str": Kind, "_namespaces_dict": NSD})
+     "_allow_redundant_or": Bool, "_instantiation_property_str": Kind, "_namespaces_dict": NSD,
+     "_statement_serializer_factory": SerFactory})
 
 # the text of an informative comment is an (uninterpreted) function of the statement's CURRENT figures and of nothing else
 specfun("comment_text", [Opt(Kind), Card, Real, Int, Bool], Text)
@@ -97,8 +100,6 @@ contract(ASS + "._tune_list_of_valid_statements", params={VS: List(Statement)}, 
     note="cardinality after tuning = documented rewrite of the cardinality before; counts, kinds, properties untouched; with every switch off nothing is written")
 
 # ---- MergeableConstraints: the node-kind merge (C04: never crashes; C01: figures of existing statements never written) -----------
-SerFactory = schema("SerFactory", ["shexer.io.shex.formater.statement_serializers.st_serializers_factory:StSerializerFactory"],
-                    {"_direct_base": StSer, "_inverse_base": StSer, "_direct_choice": StSer, "_inverse_choice": StSer})
 MCT = schema("MC", [MC], {"_constraints": List(Statement), "_bnode_constraint": Opt(Statement), "_shape_constraints": Opt(List(Statement)),
                           "_iri_constraint": Opt(Statement), "_dominant_constraint": Opt(Statement), "_disable_or": Bool,
                           "_redundant_or_enabled": Bool, "_statement_serializer_factory": Opt(SerFactory), "_namespaces_dict": Opt(NSD)})
@@ -148,16 +149,21 @@ contract(MC + "._promote_to_dominant", params={"statement": Statement}, requires
     modifies=["MC._dominant_constraint[self]", "MC._constraints[self]"], props=["C04"])
 SAME_KEY = "forall(Int, lambda j: implies(0 <= j and j < len(%s), %s[j]._st_property == %s[0]._st_property and %s[j]._is_inverse == %s[0]._is_inverse))" % (CS, CS, CS, CS, CS)
 GROUP_PRE = MC_INV + ["len(%s) >= 2" % CS, "self._statement_serializer_factory is not None", SAME_KEY]
+# the constraint that represents the group is one of its members or a statement created by the merge (never a statement from elsewhere)
+MEMBER_OR_FRESH = "(%s or fresh_obj(some(self._dominant_constraint)))" % IN("old(%s)" % CS, "some(self._dominant_constraint)")
+SLOTS_KEPT = ["self._iri_constraint == old(self._iri_constraint)", "self._bnode_constraint == old(self._bnode_constraint)"]
 contract(MC + "._bnode_merging_strategy", params={},
     requires=GROUP_PRE + ["self._bnode_constraint is not None"],
     ensures=["self._dominant_constraint is not None", "has_class(some(self._dominant_constraint), 'Statement')", "some(self._dominant_constraint)._serializer_object is not None",
-             "some(self._dominant_constraint)._st_property == old(self._constraints[0]._st_property)", "some(self._dominant_constraint)._is_inverse == old(self._constraints[0]._is_inverse)"] + MC_WEAK, raises=[],
+             "some(self._dominant_constraint)._st_property == old(self._constraints[0]._st_property)", "some(self._dominant_constraint)._is_inverse == old(self._constraints[0]._is_inverse)",
+             MEMBER_OR_FRESH] + MC_WEAK + SLOTS_KEPT, raises=[],
     modifies=["MC._dominant_constraint[self]", "MC._constraints[self]", "alloc"], props=["C04", "C01", "C02", "C14", "C12"],
     note="IRI and BNode values with or without typed values: a dominant constraint is always chosen, nothing is dereferenced through None")
 contract(MC + "._no_bnode_merging_strategy", params={},
     requires=GROUP_PRE + ["self._bnode_constraint is None", "self._shape_constraints is not None"],
     ensures=["self._dominant_constraint is not None", "has_class(some(self._dominant_constraint), 'Statement')", "some(self._dominant_constraint)._serializer_object is not None",
-             "some(self._dominant_constraint)._st_property == old(self._constraints[0]._st_property)", "some(self._dominant_constraint)._is_inverse == old(self._constraints[0]._is_inverse)"] + MC_WEAK, raises=[],
+             "some(self._dominant_constraint)._st_property == old(self._constraints[0]._st_property)", "some(self._dominant_constraint)._is_inverse == old(self._constraints[0]._is_inverse)",
+             MEMBER_OR_FRESH] + MC_WEAK + SLOTS_KEPT, raises=[],
     modifies=["MC._dominant_constraint[self]", "MC._constraints[self]"], props=["C04", "C01", "C02", "C14", "C12"],
     note="also when the threshold removed the plain IRI kind and only shape references are left")
 
@@ -266,13 +272,17 @@ contract(MC + "._feed_dominant_constraint_with_comments", params={},
     loops={0: {"invariant": ["heap_eq('Statement._cardinality')", "heap_eq('Statement._probability')", "heap_eq('Statement._n_occurences')", "heap_eq('Statement._st_type')",
                              "forall(Statement, lambda r: implies(r != %s, r._comments == pre(r._comments)))" % DOM]}},
     props=["C04", "C01"], note="alternatives become comments of the dominant constraint; no figure is written")
+DOM_KEPT_OR_SLOT_OR_FRESH = ("(self._dominant_constraint == old(self._dominant_constraint) or fresh_obj(%s)"
+                             " or (old(self._iri_constraint) is not None and self._dominant_constraint == old(self._iri_constraint))"
+                             " or (old(self._bnode_constraint) is not None and self._dominant_constraint == old(self._bnode_constraint)))" % DOM)
 contract(MC + "._tune_dominant_constraint_wrt_or_config", params={},
     requires=MC_WEAK + ["self._dominant_constraint is not None", "has_class(%s, 'Statement')" % DOM, "%s._serializer_object is not None" % DOM,
                         "self._statement_serializer_factory is not None"],
     ensures=["self._dominant_constraint is not None",
              "implies(self._disable_or, self._dominant_constraint == old(self._dominant_constraint))",
              # a disjunction keeps property, cardinality and figures of the dominant constraint
-             "%s._st_property == old(%s._st_property) and %s._cardinality == old(%s._cardinality) and %s._n_occurences == old(%s._n_occurences) and %s._probability == old(%s._probability)" % ((DOM,) * 8)],
+             "%s._st_property == old(%s._st_property) and %s._cardinality == old(%s._cardinality) and %s._n_occurences == old(%s._n_occurences) and %s._probability == old(%s._probability)" % ((DOM,) * 8),
+             DOM_KEPT_OR_SLOT_OR_FRESH],
     raises=[], modifies=["MC._dominant_constraint[self]", "alloc"], props=["C04", "C13"], ghost={"__locals__": {"st_types": List(Opt(Kind))}},
     note="disable_or_statements=False only turns the single non-literal constraint into a disjunction over the same alternatives")
 
@@ -280,11 +290,13 @@ contract(MC + "._merge_content_in_single_statement", params={},
     requires=MC_WEAK + ["self._dominant_constraint is not None", "has_class(%s, 'Statement')" % DOM, "%s._serializer_object is not None" % DOM,
                         "self._statement_serializer_factory is not None", "self._namespaces_dict is not None"],
     ensures=["self._dominant_constraint is not None",
-             "%s._st_property == old(%s._st_property) and %s._cardinality == old(%s._cardinality) and %s._n_occurences == old(%s._n_occurences)" % ((DOM,) * 6)],
+             "%s._st_property == old(%s._st_property) and %s._cardinality == old(%s._cardinality) and %s._n_occurences == old(%s._n_occurences)" % ((DOM,) * 6),
+             DOM_KEPT_OR_SLOT_OR_FRESH],
     raises=[], modifies=["MC._dominant_constraint[self]", "alloc", "Statement._comments"], props=["C04", "C02"])
 contract(MC + ".merge_group", params={"disable_or": Bool, "redundant_or_allowed": Bool}, returns=Statement,
     requires=GROUP_PRE + ["self._namespaces_dict is not None"],
-    ensures=["result._st_property == old(self._constraints[0]._st_property)"],
+    ensures=["result._st_property == old(self._constraints[0]._st_property)",
+             "(%s or fresh_obj(result))" % IN("old(%s)" % CS, "result")],      # figures of existing statements: frame (only comments are written)
     raises=[], modifies=["MC._dominant_constraint[self]", "MC._constraints[self]", "MC._shape_constraints[self]", "MC._disable_or[self]",
                          "MC._redundant_or_enabled[self]", "alloc", "Statement._comments"],
     props=["C04", "C02"], note="the merge of the node kinds of one property never fails and yields one constraint for that property")
